@@ -1,14 +1,14 @@
 #!/bin/bash
 # tools_eval_seeded.sh <seeded-dir>... : run the registered check of the property (quick, then thorough if
 # quick is silent) against each seeded change, on a scratch copy of /repo. Prints one line per change.
-cd /verif
+cd ${VERIF_HOME:-/verif}
 for sd in "$@"; do
   id=$(basename $sd | cut -d- -f1); d=$sd/patch.diff
   case "$id" in fix) id=$(python3 -c "import json,sys;print(json.load(open('$sd/meta.json'))['property'].split()[0].strip(','))");; esac
   [ -f "$d" ] || continue
   out=$(SKIP_TESTS=1 ./tools_try_mutant.sh "$d" $id quick 2>&1)
   rc=$(echo "$out" | grep -o "check_rc=[0-9]*" | cut -d= -f2); tier=quick
-  if [ "$rc" = "0" ]; then
+  if [ "$rc" = "0" ] && [ "${QUICK_ONLY:-}" != 1 ]; then
     out=$(SKIP_TESTS=1 ./tools_try_mutant.sh "$d" $id thorough 2>&1)
     rc=$(echo "$out" | grep -o "check_rc=[0-9]*" | cut -d= -f2); tier=thorough
   fi
